@@ -242,6 +242,27 @@ def case_variant(rng, name):
     return [[c ^ 0x20 if (65 <= c <= 90 or 97 <= c <= 122) and rng.random() < 0.5 else c for c in x] for x in name]
 
 
+def carry_key(rng, key):
+    """environment choice: re-tune one 16-bit word of a random DNSKEY RDATA so that the RFC 4034 App. B octet sum S
+    has (S % 65536) + (S // 65536) >= 65536 - the only place where 'add the carry once and truncate' differs from an
+    end-around-carry fold (about 1 random key in 1000 gets there by itself)"""
+    key = list(key)
+    if len(key) < 8:
+        return key
+    pos = 4 + 2 * rng.randrange((len(key) - 4) // 2)   # an aligned word of the key body
+    for _ in range(4):
+        key[pos] = key[pos + 1] = 0
+        s = sum(b if i & 1 else b << 8 for i, b in enumerate(key))
+        hi = (s >> 16) + 1
+        target = 0x10000 - rng.randint(1, max(1, hi))     # low half so close to FFFF that adding hi overflows
+        w = (target - s) & 0xFFFF
+        key[pos], key[pos + 1] = w >> 8, w & 255
+        s = sum(b if i & 1 else b << 8 for i, b in enumerate(key))
+        if (s & 0xFFFF) + (s >> 16) >= 0x10000:
+            break
+    return key
+
+
 def jobs_random(templates, rng, count):
     out = []
     multi = [t for t in templates if t["num"] not in (5, 6, 30, 39, 47)]
@@ -270,6 +291,8 @@ def jobs_random(templates, rng, count):
         elif r < 0.9:
             key = [rng.randrange(256), rng.randrange(256), 3, rng.choice([1, 5, 8, 13, 15, 253])] + \
                   [rng.randrange(256) for _ in range(rng.choice([3, 4, 31, 32, 33, 64, 65, 130, 259]))]
+            if rng.random() < 0.5:
+                key = carry_key(rng, key)
             out.append({"k": "keytag", "rd": key})
             out.append({"k": "ds", "owner": rnd_name(rng), "key": key, "dt": rng.choice([1, 2, 4])})
         else:
